@@ -85,10 +85,18 @@ static void check_case(const struct impl *im, uint64_t seed, uint8_t *buf, size_
 		memset(dst, 0xEE, len);
 	}
 	uint64_t got = 0;
+	/* a checksum only reads its message: the buffer is write-protected for the call (arena buffers; the >4 GiB mappings are checked by value) */
+	int ro = g_owns(buf);
+	if (ro)
+		g_readonly(buf, 1);
 	if (V_TRY()) {
 		got = call_impl(im, seed, buf, len, dst);
 		V_END();
+		if (ro)
+			g_readonly(buf, 0);
 	} else {
+		if (ro)
+			g_readonly(buf, 0);
 		snprintf(key, sizeof key, "%s fault len=%zu %s", im->name, len, place);
 		v_violation(key, "fault at %s addr=%p (%s) %s seed=%llx", v_sym(v_fault_rip), (void *)v_fault_addr, v_fault_write ? "write" : "read", what, (unsigned long long)seed);
 		return;
